@@ -160,7 +160,12 @@ Proof.
     assert (C3 : p_creds s3 = root_creds).
     { destruct (has valid FATTR_SIZE); [|inversion H3; subst; exact C2]. apply (setattr_size_creds _ _ _ _ _ _ _ _ H3 C2). }
     destruct r3; [|inv4 H; exact C3].
-    destruct (do_getattr cf s3 inode handle); inv4 H; exact C3.
+    match type of H with context [let '(r4, s4) := ?x in _] => destruct x as [r4 s4] eqn:H4 end.
+    assert (C4 : p_creds s4 = root_creds).
+    { destruct (has valid FATTR_ATIME || has valid FATTR_MTIME); [|inversion H4; subst; exact C3].
+      match type of H4 with context [sys_utimens ?h ?i ?a ?m] => destruct (sys_utimens h i a m) end. inversion H4; subst. exact C3. }
+    destruct r4; [|inv4 H; exact C4].
+    destruct (do_getattr cf s4 inode handle); inv4 H; exact C4.
   - (* mkdir *)
     destruct (validate cf n); [inv4 H; exact Hc|].
     match type of H with context [create_then_lookup ?a ?b ?c ?d ?e ?f] => destruct (create_then_lookup a b c d e f) as [[rp0 io0] s0] eqn:Hx end.
@@ -252,6 +257,7 @@ Proof.
   - (* fallocate *)
     destruct (get_data cf (c_no_open cf) s handle inode O_RDWR) as [[[hid hd]|e] s1] eqn:Hg;
       pose proof (get_data_creds _ _ _ _ _ _ _ _ Hg) as C1; [|inv4 H; rewrite C1; exact Hc].
+    destruct (l =? 0); [inv4 H; rewrite C1; exact Hc|].
     destruct (negb (acc_w (hd_acc hd))); [inv4 H; rewrite C1; exact Hc|].
     match type of H with context [sys_fallocate ?c ?h ?a ?m ?o ?l] => destruct (sys_fallocate c h a m o l) as [[u|e] h'] end; inv4 H; cbn; rewrite C1; exact Hc.
   - (* lseek *)
